@@ -9,11 +9,18 @@
    before ([no_overlap], the test the function itself makes; one range per message, merged runs, unordered lists and
    repeated ranges for re-executed messages all qualify).
 
-   The multi-round part of C09 (Outcome over rounds, selectReport, liveness) has NO theorem here: C09_cycle_liveness and
-   the history-level reading of C09_never_reexecuted / C09_pending_exact are partial - they are monitored on real
-   four-oracle histories by the harness (sink C09_history: outcome of every round against [filter_executed] on the
-   world snapshot of the cycle's first observation, under the same-view / everything-ready conditions named in
-   Check/C09_check.v), not proved. *)
+   The multi-round part of C09: C09_never_reexecuted_cycle (below) composes the pending filter with the C08 report
+   builder across the three rounds of a cycle.  The liveness clause is proved per round and is PARTIAL:
+   GetCommitReports / GetMessages rounds - an item reported by f+1 distinct validated observers is in the merged
+   outcome whatever the others send (Props/C07.v: C07_commit_complete, C07_message_complete, C07_nonce_complete);
+   Filter round - C09_liveness_filter_round_partial / C09_liveness_filter_round_all_ready below: a provable commit
+   report whose all-ready chain report fits the remaining budget gets a chain report containing every eligible
+   message.  What is not a theorem: that 2F+1 honest oracles with readable chains produce those f+1 identical
+   observations (reader behaviour), sequenced messages whose nonce chain is broken, and the case where the all-ready
+   report does not fit (the greedy fallback includes a subset, C08).  The history-level reading is in addition monitored
+   on real four-oracle histories by the harness (sink C09_history: outcome of every round against [filter_executed] on
+   the world snapshot of the cycle's first observation, under the same-view / everything-ready conditions named in
+   Check/C09_check.v). *)
 Require Import Verif.Model.Base Verif.Model.ExecPending Verif.Proofs.ExecPendingP.
 Local Open Scope N_scope.
 
@@ -137,3 +144,52 @@ Theorem C09_never_reexecuted_cycle : forall reports executed out r' (cd : ExecRe
     p_lo r' <= ExecReport.m_seq m <= p_hi r' -> ~ in_union executed (ExecReport.m_seq m).
 Proof. exact ExecHistoryP.executed_never_included. Qed.
 Print Assumptions C09_never_reexecuted_cycle.
+
+(* C09 liveness, Filter round (partial: see the header).  Add = execReportBuilder.Add on one pending commit report.
+   Premises: the commit data reproduces its committed root ("provable"), the token data list matches the messages,
+   and the chain report of ALL checkMessage-ready messages fits what is left of the size and gas limits ("fitting the
+   limits").  Then that chain report is appended - it holds exactly the ready messages - ... *)
+Require Verif.Model.Merkle Verif.Proofs.ExecLivenessP.
+Theorem C09_liveness_filter_round_all_ready :
+  forall (hash : N -> N -> N) (zero : N) (leaf_hash : ExecReport.msg -> option N)
+         (enc_size : ExecReport.creport -> option N) (tree_gas : N -> N) (nonces : ExecReport.nmap)
+         (max_size max_gas : N) (st : ExecReport.bstate) (cd : ExecReport.cdata) t,
+  (forall a b, hash a b = hash b a) ->
+  (length (ExecReport.c_msgs cd) <= Merkle.max_leaves)%nat ->
+  length (ExecReport.c_td cd) = length (ExecReport.c_msgs cd) ->
+  ExecReport.construct_tree hash zero leaf_hash cd = Ok t -> Merkle.troot zero t = ExecReport.c_root cd ->
+  ExecReport.ready_of nonces st cd <> [] ->
+  (forall r, ExecReportP.report_for hash zero leaf_hash cd (ExecReport.ready_of nonces st cd) r ->
+     exists sz, enc_size r = Some sz /\
+                ExecReportP.fits max_size max_gas st sz (ExecReport.report_gas tree_gas r)) ->
+  exists st' r,
+    ExecReport.add hash zero leaf_hash enc_size tree_gas nonces max_size max_gas st cd
+      = Ok (st', ExecReport.mark_executed r cd) /\
+    ExecReport.b_reports st' = ExecReport.b_reports st ++ [r] /\
+    ExecReport.r_msgs r = ExecReport.select (ExecReport.c_msgs cd) (ExecReport.ready_of nonces st cd) /\
+    ExecReportP.report_for hash zero leaf_hash cd (ExecReport.ready_of nonces st cd) r.
+Proof. exact ExecLivenessP.add_reports_all_ready. Qed.
+Print Assumptions C09_liveness_filter_round_all_ready.
+
+(* ... and every eligible message (not executed, token data ready, not too costly) that allows out-of-order execution
+   (nonce 0, so "nonce in order" holds trivially) is in it and is recorded as executed in the commit data handed on. *)
+Theorem C09_liveness_filter_round_partial :
+  forall (hash : N -> N -> N) (zero : N) (leaf_hash : ExecReport.msg -> option N)
+         (enc_size : ExecReport.creport -> option N) (tree_gas : N -> N) (nonces : ExecReport.nmap)
+         (max_size max_gas : N) (st : ExecReport.bstate) (cd : ExecReport.cdata) t,
+  (forall a b, hash a b = hash b a) ->
+  (length (ExecReport.c_msgs cd) <= Merkle.max_leaves)%nat ->
+  length (ExecReport.c_td cd) = length (ExecReport.c_msgs cd) ->
+  ExecReport.construct_tree hash zero leaf_hash cd = Ok t -> Merkle.troot zero t = ExecReport.c_root cd ->
+  (forall r, ExecReportP.report_for hash zero leaf_hash cd (ExecReport.ready_of nonces st cd) r ->
+     exists sz, enc_size r = Some sz /\
+                ExecReportP.fits max_size max_gas st sz (ExecReport.report_gas tree_gas r)) ->
+  forall i m, ExecReportP.eligible cd i -> nth_error (ExecReport.c_msgs cd) i = Some m ->
+    ExecReport.m_nonce m = 0 ->
+  exists st' r,
+    ExecReport.add hash zero leaf_hash enc_size tree_gas nonces max_size max_gas st cd
+      = Ok (st', ExecReport.mark_executed r cd) /\
+    ExecReport.b_reports st' = ExecReport.b_reports st ++ [r] /\ In m (ExecReport.r_msgs r) /\
+    memN (ExecReport.m_seq m) (ExecReport.c_exec (ExecReport.mark_executed r cd)) = true.
+Proof. exact ExecLivenessP.add_includes_eligible. Qed.
+Print Assumptions C09_liveness_filter_round_partial.
